@@ -35,3 +35,100 @@ Proof.
     rewrite Forall_forall in Hn. rewrite (Hn p Hin). apply parse_np; assumption.
   - apply (requery_reported q d ps p); assumption.
 Qed.
+
+(* ---------- the filter-free sublanguage, end to end at string level ---------- *)
+From JP Require Import FragParse FragBuild Purity Refine Order SpecFacts RegexFacts DataFacts SelFacts.
+From Coq Require Import Permutation.
+
+Lemma name_char_plain c : name_char_b c = true ->
+  (N.leb 32 c && negb (N.eqb c 39) && negb (N.eqb c 34) && negb (N.eqb c 92))%bool = true.
+Proof.
+  unfold name_char_b. intros H. apply orb_true_iff in H.
+  assert (Hc : (48 <= c /\ c <> 92)%N).
+  { destruct H as [H|H]; [apply name_first_cases in H; lia|apply is_digit_bounds in H; lia]. }
+  destruct (N.leb_spec 32 c); [|lia]. destruct (N.eqb_spec c 39); [lia|]. destruct (N.eqb_spec c 34); [lia|].
+  destruct (N.eqb_spec c 92); [lia|]. reflexivity.
+Qed.
+
+Lemma shorthand_name_plain n : name_ok n -> name_plain n = true.
+Proof.
+  destruct n as [|c r]; [intros []|]. intros [Hc Hr].
+  assert (Hall : forall x, In x (c :: r) ->
+            (N.leb 32 x && negb (N.eqb x 39) && negb (N.eqb x 34) && negb (N.eqb x 92))%bool = true).
+  { intros x [<-|Hx]; apply name_char_plain; [apply name_first_char; exact Hc|apply (forallb_In _ _ _ Hr Hx)]. }
+  unfold name_plain, no_bslash, no_ctl.
+  assert (H1 : forallb (fun x => negb (N.eqb x 92)) (c :: r) = true).
+  { apply forallb_forall. intros x Hx. specialize (Hall x Hx). apply andb_true_iff in Hall. apply Hall. }
+  assert (H2 : forallb (fun x => N.leb 32 x) (c :: r) = true).
+  { apply forallb_forall. intros x Hx. specialize (Hall x Hx). apply andb_true_iff in Hall. destruct Hall as [Hall _].
+    apply andb_true_iff in Hall. destruct Hall as [Hall _]. apply andb_true_iff in Hall. apply Hall. }
+  assert (H3 : forallb (fun x => negb (N.eqb x 39) && negb (N.eqb x 34)) (c :: r) = true).
+  { apply forallb_forall. intros x Hx. specialize (Hall x Hx). apply andb_true_iff in Hall. destruct Hall as [Hall _].
+    apply andb_true_iff in Hall. destruct Hall as [Hall H34]. apply andb_true_iff in Hall. destruct Hall as [_ H39].
+    rewrite H39, H34. reflexivity. }
+  rewrite H1, H2. cbn [andb]. cbn [name_kind].
+  pose proof (Hall c (or_introl eq_refl)) as Hcc. apply andb_true_iff in Hcc. destruct Hcc as [Hcc _].
+  apply andb_true_iff in Hcc. destruct Hcc as [Hcc H34]. apply andb_true_iff in Hcc. destruct Hcc as [_ H39].
+  apply negb_true_iff in H39. apply negb_true_iff in H34. rewrite H39, H34.
+  change (N.eqb 0 1) with false. change (N.eqb 0 2) with false. cbv iota. exact H3.
+Qed.
+
+Lemma plain_chars_docname k : forallb plain_char k = true -> docname_plain k = true.
+Proof.
+  unfold docname_plain. rewrite !forallb_forall. intros H c Hc. apply plain_char_doc. apply H. exact Hc.
+Qed.
+
+Lemma sel_ast_ok s : sel_ok s -> ok_selector (sel_ast s) = true.
+Proof.
+  destruct s as [k| |i|a b c]; cbn [sel_ok sel_ast ok_selector]; intros H; try reflexivity.
+  apply (npq_name_plain k). apply plain_chars_docname. exact H.
+Qed.
+
+Lemma sels_ast_ok l : Forall sel_ok l -> ok_selectors (selectors_of_list (map sel_ast l)) = true.
+Proof.
+  induction l as [|s l IH]; intros H; [reflexivity|]. unfold selectors_of_list in *. cbn [map fold_right].
+  change (ok_selector (sel_ast s) && ok_selectors (fold_right SCons SNil (map sel_ast l)) = true).
+  rewrite (sel_ast_ok s (Forall_inv H)), (IH (Forall_inv_tail H)). reflexivity.
+Qed.
+
+Lemma bracket_ast_ok s l : sel_ok s -> Forall sel_ok l -> ok_segment (bracket_ast s l) = true.
+Proof.
+  intros Hs Hl. unfold bracket_ast. destruct l as [|s2 l].
+  - apply sel_ast_ok. exact Hs.
+  - change (ok_selectors (selectors_of_list (map sel_ast (s :: s2 :: l))) = true). apply sels_ast_ok. constructor; assumption.
+Qed.
+
+Lemma seg_ast_ok g : seg_ok g -> ok_segment (seg_ast g) = true.
+Proof.
+  destruct g as [s l|n| |s l|n| ]; cbn [seg_ok seg_ast]; intros H; try reflexivity.
+  - destruct H. apply bracket_ast_ok; assumption.
+  - apply (shorthand_name_plain n H).
+  - destruct H. apply (bracket_ast_ok s l); assumption.
+  - apply (shorthand_name_plain n H).
+Qed.
+
+Lemma query_ast_wf q : Forall seg_ok q -> wf_query (query_ast q) = true.
+Proof.
+  unfold wf_query, query_ast. induction q as [|g q IH]; intros H; [reflexivity|]. cbn [map segments_of_list].
+  change (ok_segment (seg_ast g) && ok_segments (segments_of_list (map seg_ast q)) = true).
+  rewrite (seg_ast_ok g (Forall_inv H)), (IH (Forall_inv_tail H)). reflexivity.
+Qed.
+
+(* C01 at string level for the filter-free sublanguage: query_with_path on the canonical text of any
+   such query returns exactly the RFC 9535 nodes (with multiplicity), each a node of the document *)
+Theorem frag_end_to_end (q : list fseg) (d : json) :
+  Forall seg_ok q -> Forall seg_range q -> wf_json d = true ->
+  exists ps,
+    api_with_path (36%N :: segs_text q) d = Some (map (fun p => (inner p, path p)) ps)
+    /\ Permutation (map node_of ps) (rfc_query (query_ast q) d)
+    /\ Forall (fun p => lookup d (ploc p) = Some (inner p)) ps.
+Proof.
+  intros Hok Hr Hw. unfold api_with_path. rewrite (parse_frag q Hok Hr).
+  destruct (js_path_process_refines rx_model_search rx_spec_full rx_spec_sub rx_model_full_ok rx_model_sub_ok
+              (query_ast q) d (query_ast_wf q Hok)) as [ps [E1 E2]].
+  change (m_query (query_ast q) d = Some ps) in E1. exists ps. rewrite E1. split; [reflexivity|]. split.
+  - rewrite E2. apply (sel_major_is_permutation rx_spec_full rx_spec_sub jeqb d (query_ast q)).
+  - pose proof (query_nodes_located rx_spec_full rx_spec_sub jeqb true d (query_ast q) Hw) as Hloc.
+    unfold cur_query, s_query in E2. rewrite <- E2 in Hloc. rewrite Forall_forall in *.
+    intros p Hp. apply (Hloc (node_of p)). apply in_map. exact Hp.
+Qed.
